@@ -184,8 +184,15 @@ func (p *Prog) summarizeStream(enq *Func) *streamSummary {
 				}
 			}
 			if p.IsField(x.Lhs[0], q) {
-				if sl, ok := unparen(x.Rhs[0]).(*ast.SliceExpr); ok && p.IsField(sl.X, q) && sl.High == nil {
-					if c, _ := p.ConstVal(sl.Low); c == "1" && ld.At(x)[notifierMu] {
+				// the new queue value, through a named intermediate if there is one (read under the same mutex)
+				rhs, defLocked := unparen(x.Rhs[0]), true
+				if id, isID := rhs.(*ast.Ident); isID {
+					if d, okd := p.SingleDef(s.drain, p.ObjOf(id)); okd && d.Rhs != nil && d.Index == 0 {
+						rhs, defLocked = unparen(d.Rhs), ld.At(d.Node)[notifierMu]
+					}
+				}
+				if sl, ok := rhs.(*ast.SliceExpr); ok && p.IsField(sl.X, q) && sl.High == nil {
+					if c, _ := p.ConstVal(sl.Low); c == "1" && ld.At(x)[notifierMu] && defLocked {
 						reslice = true
 					}
 				}
